@@ -599,6 +599,35 @@ func sysChild(phase string) {
 			}
 		}
 	}
+	// the fractions that exist now are the ones the search was (or is about to be) started on; `late=` documents
+	// arrive in a NEW fraction between the start of the search and the restart: they must not show up in the result
+	fracsAtStart := fm.GetAllFracs()
+	if phase == "resume" && m["late"] != "" && m["late"] != "-" {
+		var docs []sdoc
+		for _, e := range splitList(m["docs"], ",") {
+			p := strings.Split(e, ":")
+			d := sdoc{id: seq.ID{MID: seq.MID(atou(p[0])), RID: seq.RID(atou(p[1]))}, svc: p[2], val: p[3]}
+			if len(p) >= 6 {
+				d.msg, d.uri = atoi(p[4]), atoi(p[5])
+			}
+			docs = append(docs, d)
+		}
+		fm.SealForcedForTests() // whatever was active at start keeps its name; the late documents get a fraction of their own
+		dp := frac.NewDocProvider()
+		for _, e := range splitList(m["late"], ",") {
+			d := docs[atoi(e)%len(docs)]
+			d.id.RID += 7 // a different document with the same content
+			body, toks := docTokens(d)
+			dp.Append(body, nil, d.id, toks)
+		}
+		dm, mm := dp.Provide()
+		if err := fm.Append(context.Background(), dm, mm); err != nil {
+			out.Err = "append late: " + err.Error()
+			emit()
+			return
+		}
+		fm.WaitIdle()
+	}
 	query := queryOf(m)
 	params := processor.SearchParams{AggQ: aggQuery(m["agg"]), HistInterval: atou(m["hi"]), From: seq.MID(atou(m["from"])), To: seq.MID(atou(m["to"])),
 		Limit: math.MaxInt32, WithTotal: false, Order: order(m["desc"] == "1")}
@@ -658,7 +687,7 @@ func sysChild(phase string) {
 		return
 	}
 	params.AST = ast.Root
-	fracs := fm.GetAllFracs()
+	fracs := fracsAtStart
 	out.Fracs = len(fracs.FilterInRange(params.From, params.To))
 	sq, err := fracmanager.NewSearcher(4, fracmanager.SearcherCfg{}).SearchDocs(context.Background(), fracs, params)
 	if err != nil {
@@ -754,8 +783,12 @@ func genSys(g gen, o vh.Opts) []string {
 		if _, err := parser.ParseSeqQL(query, seq.TestMapping); err != nil {
 			query = seq.TokenAll + ":*"
 		}
-		lines = append(lines, fmt.Sprintf("async docs=%s layout=%s lastActive=%s qx=%s desc=%s hi=%d agg=%s from=%d to=%d crash=%d at=%s",
-			strings.Join(docs, ","), strings.Join(lay, ";"), b(g.r.Bool()), vh.Hex([]byte(query)), b(g.r.Bool()),
+		late := "-"
+		if crash > 0 && g.r.Chance(1, 2) {
+			late = fmt.Sprintf("%d,%d,%d", g.r.Intn(len(docs)), g.r.Intn(len(docs)), g.r.Intn(len(docs)))
+		}
+		lines = append(lines, fmt.Sprintf("async docs=%s layout=%s lastActive=%s late=%s qx=%s desc=%s hi=%d agg=%s from=%d to=%d crash=%d at=%s",
+			strings.Join(docs, ","), strings.Join(lay, ";"), b(g.r.Bool()), late, vh.Hex([]byte(query)), b(g.r.Bool()),
 			[]int{0, 1, 7}[g.r.Intn(3)], []string{"none", "count", "sum"}[g.r.Intn(3)], from, to, crash, []string{"written", "before-rename"}[g.r.Intn(2)]))
 	}
 	return lines
@@ -808,7 +841,7 @@ func runSys(lines []string, orc *vh.Oracle, rep *vh.Report, o vh.Opts) {
 		os.RemoveAll(dir)
 		qfield := strings.SplitN(strings.TrimPrefix(queryOf(m), "not "), ":", 2)[0]
 		orc.Case(line, crashed && k > 1, "crashed="+b(crashed), "agg="+m["agg"], fmt.Sprintf("fracs=%d", k), "hist="+b(m["hi"] != "0"), "dup="+b(hasDupIdx(m["layout"])),
-			"query-field="+qfield, "phrase="+b(strings.Contains(queryOf(m), " ") && strings.Contains(queryOf(m), "\"")))
+			"late-fraction="+b(crashed && m["late"] != "" && m["late"] != "-"), "query-field="+qfield, "phrase="+b(strings.Contains(queryOf(m), " ") && strings.Contains(queryOf(m), "\"")))
 		switch {
 		case out.Err == "not-found" && crashed && atoi(m["crash"]) == 1 && m["at"] == "before-rename":
 			// killed before the request itself was persisted: it was never acknowledged, nothing to compare
